@@ -6,11 +6,8 @@ From NessaiV Require Import Lib.FSModel.
 
 Lemma role_eqb_eq : forall a b, role_eqb a b = true <-> a = b.
 Proof.
-  intros [| |n|n] [| |m|m]; simpl; split; intro H; try reflexivity; try discriminate.
-  - apply Nat.eqb_eq in H. now subst.
-  - inversion H. apply Nat.eqb_refl.
-  - apply Nat.eqb_eq in H. now subst.
-  - inversion H. apply Nat.eqb_refl.
+  intros [| |n|n|n] [| |m|m|m]; simpl; split; intro H; try reflexivity; try discriminate;
+    try (apply Nat.eqb_eq in H; now subst); inversion H; apply Nat.eqb_refl.
 Qed.
 
 Lemma fname_eqb_eq : forall a b, fname_eqb a b = true <-> a = b.
